@@ -31,7 +31,9 @@ def strategy_case(draw):
     x = draw(gen.tt_spec(dmin=1, dmax=dmax, sizes=SZ, ttm=ttm, maxnumel=1500 if not ttm else 40))
     zero = draw(st.floats(0, 1)) < 0.04
     # every clause is relative, so the data scale must not matter (one core of x is multiplied by 10^k)
-    case = {"op": op, "x": x, "zero": zero, "scale10": draw(st.sampled_from([0, 0, 0, 0, -3, -6, 3, 6]))}
+    case = {"op": op, "x": x, "zero": zero, "scale10": draw(st.sampled_from([0, 0, 0, 0, -3, -6, 3, 6])),
+            # badly balanced cores: one core times 10^u, its neighbour times 10^-u (the tensor itself is unchanged)
+            "unbalanced": draw(st.sampled_from([0, 0, 0, 0, 0, 120, 170]))}
     d = len(x["N"])
     if op == "norm":
         case["squared"] = draw(st.booleans())
@@ -128,6 +130,13 @@ def execute(case):
         xc[k] = xc[k] * (10.0 ** case["scale10"])
         exact = False
         ck.label("scaled")
+    if case.get("unbalanced", 0) and d >= 2:
+        ub = case["unbalanced"] if dt in ("f64", "c128") else 15
+        k = (xs["seed"] // 11) % d
+        xc[k] = xc[k] * (10.0 ** ub)
+        xc[(k + 1) % d] = xc[(k + 1) % d] * (10.0 ** (-ub))
+        exact = False
+        ck.label("unbalanced_cores")
     ck.label("op:" + op, "dt:" + dt, "order:%d" % d, "payload:" + xs["mode"])
     if ttm:
         ck.label("operator")
